@@ -120,8 +120,10 @@ def plan(tier, seed):
         # one pattern list mixing spellings and a second file's entries, interleaved (a:2, other:1, a:6 ...): every entry counts, whatever its neighbours
         full = tuple(range(K))
         for mode in ("exclude", "include"):
-            for q in range(1 if tier == "quick" else 3):
-                sub = full if q == 0 else tuple(sorted(rnd.sample(range(K), 2)))
+            for q in range(2 if tier == "quick" else 5):
+                sub = full if q < 2 else tuple(sorted(rnd.sample(range(K), 2)))
+                # the patterns of one file come in the order the user wrote them: ascending (q = 0), else descending or rotated - the set of lines is what counts
+                if q >= 1: sub = rnd.choice([sub[::-1]] + ([sub[1:] + sub[:1], sub[-1:] + sub[:-1]] if len(sub) > 2 else []))
                 sp = [rnd.choice(spellings[:3]) for _ in sub]
                 if len(sub) >= 3: sp[2] = sp[0]                               # the same path spelling comes back after a different one
                 pats = [s_.replace("{n}", str(sites[i])) for s_, i in zip(sp, sub)]
